@@ -400,7 +400,7 @@ PREFIX_LEAK = {
     "wrap:for": "caller-for-scope-visible", "wrap:with": "caller-with-scope-visible",
     "wrap:include": "caller-include-args-visible", "wrap:tablerow": "caller-tablerow-scope-visible",
     "wrap:macro": "caller-macro-params-visible", "wrap:capture": "caller-capture-block-visible",
-    "wrap:render": "caller-render-args-visible",
+    "wrap:render": "caller-render-args-visible", "wrap:block": "caller-block-scope-visible",
 }
 
 
@@ -495,13 +495,80 @@ class Pair:
             w["kind"] = kind
             w["name"] = n
             out.append(w)
+        if r.random() < 0.3:
+            out.insert(0, self._block_wrap())
         for wi, w in enumerate(out):
             # include is (rightly) refused inside a macro body or a rendered partial: no include
-            # wrapper below a macro / render wrapper
-            if w["kind"] in ("macro", "render"):
+            # wrapper below a macro / render wrapper (or below an inheritance chain entered by render)
+            if w["kind"] in ("macro", "render") or (w["kind"] == "block" and w["entry"] == "render"):
                 out = out[: wi + 1] + [x for x in out[wi + 1:] if x["kind"] != "include"]
                 break
         return out
+
+    def _block_wrap(self) -> dict[str, Any]:
+        """The construct sits inside an overriding {% block %} of an extends chain.  Always the
+        outermost wrapper: the chain is the root template (direct) or entered by include / render;
+        the prefix statements are distributed over root, child (before `extends`) and base."""
+        r = self.r
+        n = r.choice(POOL)
+        m = r.choice(POOL)
+        entry = r.choice(["direct", "direct", "include", "include", "render"])
+        form = r.choice(["plain", "kw", "with"])
+        if entry == "direct" or form == "plain":
+            args = ["", ""]
+        elif form == "kw":
+            args = [f", {n}: 'E1'", f", {n}: 'E2'"]
+        else:
+            args = [f" with 'E1' as {n}", f" with 'E2' as {n}"]
+        bw = r.choice(["none", "for", "for", "with", "for+with"])
+        bopen = ["", ""]
+        bclose = ""
+        if "for" in bw:
+            bopen = [f"{{% for {m} in (1..2) %}}", f"{{% for {m} in (5..7) limit: 2 %}}"]
+            bclose = "{% endfor %}"
+        if "with" in bw:
+            k = r.choice(POOL)
+            bopen = [bopen[0] + f"{{% with {k}: 'BW1' %}}", bopen[1] + f"{{% with {k}: 'BW2' %}}"]
+            bclose = "{% endwith %}" + bclose
+        for st in self.prefix:
+            st["role"] = r.choice(["root", "child", "base"])
+        return {
+            "kind": "block", "name": n, "entry": entry, "bw": bw, "args": args, "depth": r.choice([2, 2, 3]),
+            "tag_level": r.choice([0, 0, 0, 1]), "super": r.random() < 0.5,
+            "bopen": bopen, "bclose": bclose,
+            "base_suffix": "[B:" + ";".join(f"{{{{ {x} }}}}" for x in POOL) + "]" + f"{{% increment {m} %}}",
+        }
+
+    def _emit_block(self, w: dict[str, Any], variant: int, with_tag: bool, text: str,
+                    prefix: list[dict[str, Any]], partials: dict[str, str], suffix: bool) -> str:
+        v = variant - 1
+        sfx = f"v{variant}{'t' if with_tag else 'n'}"
+        base, mid, leaf = f"blbase{sfx}", f"blmid{sfx}", f"blleaf{sfx}"
+        direct = w["entry"] == "direct"
+        pre = {"root": "", "child": "", "base": ""}
+        for st in prefix:
+            role = st.get("role", "root")
+            pre["child" if direct and role == "root" else role] += st["v"][v]
+        sup = "{{ block.super }}" if w["super"] else ""
+        at_leaf = w["tag_level"] == 0
+        # base: its own locals, optional for/with around the block, text after the block
+        base_block = "D" if (at_leaf or w["depth"] == 3) else sup + text
+        partials[base] = (pre["base"] + "B<" + w["bopen"][v] + "{% block row %}" + base_block + "{% endblock %}"
+                          + w["bclose"] + ">" + (w["base_suffix"] if suffix else "")
+                          + (self.suffix_out if suffix and direct else ""))
+        parent = base
+        if w["depth"] == 3:
+            mid_block = "M({{ block.super }})" if at_leaf else "M(" + sup + text + ")"
+            partials[mid] = f"{{% extends '{base}' %}}{{% block row %}}{mid_block}{{% endblock %}}"
+            parent = mid
+        leaf_block = (sup + text) if at_leaf else "L[{{ block.super }}]"
+        leaf_src = pre["child"] + f"{{% extends '{parent}' %}}{{% block row %}}{leaf_block}{{% endblock %}}"
+        if direct:
+            return leaf_src
+        partials[leaf] = leaf_src
+        tagname = "include" if w["entry"] == "include" else "render"
+        return (pre["root"] + f"{{% {tagname} '{leaf}'{w['args'][v]} %}}"
+                + (self.suffix_out if suffix else ""))
 
     def _body_stmt(self, k: int) -> tuple[str, str]:
         r = self.r
@@ -608,6 +675,8 @@ class Pair:
         text = macrodef + RL + tag + RR + (self.suffix_in if suffix else "")
         for wi in range(len(wraps) - 1, -1, -1):
             w = wraps[wi]
+            if w["kind"] == "block":
+                return self._emit_block(w, variant, with_tag, text, prefix, partials, suffix)
             if w["kind"] == "include":
                 name = f"inc{wi}v{variant}{'t' if with_tag else 'n'}"
                 partials[name] = text
@@ -690,6 +759,9 @@ def run_pair(rt: Rt, seed: str, j: int, tier: str) -> None:
     ctx.seen("constructs", pair.construct)
     for w in pair.wraps:
         ctx.seen("wrappers", w["kind"])
+        if w["kind"] == "block":
+            ctx.seen("block_wrappers", f"{w['entry']}/depth{w['depth']}/tag-level{w['tag_level']}/"
+                                       f"{'super' if w['super'] else 'nosuper'}/{w['bw']}")
     for st in pair.prefix:
         ctx.seen("prefix_kinds", st["kind"])
     for k, _s in pair.body:
@@ -699,6 +771,8 @@ def run_pair(rt: Rt, seed: str, j: int, tier: str) -> None:
         ctx.note(f"pair {seed}:{j} did not render: {v['errors']} {[o for o in v['outs'].values() if o.startswith('ERR')][:2]}")
         return
     ctx.count("pairs")
+    if any(w["kind"] == "block" for w in pair.wraps):
+        ctx.count("pairs_inside_overriding_block")
     ctx.count("o1_regions_compared", 2 * v["n_regions"])
     if pair.caller_names(pair.prefix, pair.wraps) & pair.body_names():
         ctx.nt(sorted(srcs.items()), sorted(parts.items()), sorted(pair.data), mode)
@@ -839,7 +913,8 @@ def report_o2(rt: Rt, chk: PairCheck, v: dict[str, Any], base: dict[str, Any]) -
 # O3 : include refused after render / macro
 # ======================================================================================
 
-O3_STEPS = ["include", "render", "render-with", "render-for", "call"]
+O3_STEPS = ["include", "render", "render-with", "render-for", "call", "block"]
+O3_ISOLATING = ("render", "render-with", "render-for", "call")
 O3_BLOCKS = [
     ("plain", "{% include 'q' %}"),
     ("args", "{% include 'q', a: 1 %}"),
@@ -864,6 +939,8 @@ def o3_paths(maxlen: int) -> list[tuple[str, ...]]:
             out.append(p)
         if len(p) < maxlen:
             for s in O3_STEPS:
+                if s == "block" and p and p[-1] in ("call", "block"):
+                    continue  # (block is disabled in a macro body; extends inside a block is an error)
                 rec(p + (s,))
 
     rec(())
@@ -877,6 +954,16 @@ def o3_build(path: tuple[str, ...], block: str) -> tuple[str, dict[str, str]]:
         s = path[d]
         if s == "call":
             inner = f"{{% macro m{d} %}}{inner}{{% endmacro %}}{{% call m{d} %}}"
+            continue
+        if s == "block":
+            # the enclosing template *is* the leaf of an inheritance chain (depth 2 or 3); what
+            # follows sits in its overriding block, which the base renders inside a for loop
+            parts[f"b{d}"] = "{% for zz in (1..1) %}{% block row %}D{% endblock %}{% endfor %}"
+            parent = f"b{d}"
+            if d % 2:
+                parts[f"bm{d}"] = f"{{% extends 'b{d}' %}}{{% block row %}}M({{{{ block.super }}}}){{% endblock %}}"
+                parent = f"bm{d}"
+            inner = f"{{% extends '{parent}' %}}{{% block row %}}{{{{ block.super }}}}{inner}{{% endblock %}}"
             continue
         name = f"t{d}"
         parts[name] = inner
@@ -896,16 +983,20 @@ def run_o3(rt: Rt, spec: dict[str, Any]) -> None:
     paths = o3_paths(3 if spec["tier"] == "quick" else 4)
     idx = 0
     for path in paths:
-        isolating = any(s != "include" for s in path)
+        isolating = any(s in O3_ISOLATING for s in path)
+        last_iso = max((k for k, s in enumerate(path) if s in O3_ISOLATING), default=0)
         for bname, block in O3_BLOCKS:
             idx += 1
             if idx % spec["n"] != spec["i"]:
                 continue
             src, parts = o3_build(path, block)
-            where = ">".join("macro" if s == "call" else s for s in path)
+            full = ">".join("macro" if s == "call" else s for s in path)
+            # mechanism = the last isolating step and the (shared-scope) steps between it and the include
+            where = ("macro" if path[last_iso] == "call" else path[last_iso]) + (
+                ">block" if "block" in path[last_iso:] else "")
             for mode in ("sync", "async"):
                 res = frame_case(rt, "std", src, parts, GLOBALS, mode, own=(idx % 2 == 0))
-                ctx.seen("o3_paths", where)
+                ctx.seen("o3_paths", full)
                 if not isolating:
                     ctx.count("O3_controls")
                     if not (res.ok and "QQ" in res.out):
@@ -918,13 +1009,13 @@ def run_o3(rt: Rt, spec: dict[str, Any]) -> None:
                 else:
                     ctx.violation(
                         f"O3:include-not-refused@{where}",
-                        f"include reached through {where} (block form {bname}) was not refused: "
+                        f"include reached through {full} (block form {bname}) was not refused: "
                         + (f"rendered {res.out!r}" if res.ok else f"raised {res.err}"),
                         {"oracle": "O3", "key": f"O3:include-not-refused@{where}", "source": src,
                          "partials": parts, "data": GLOBALS, "env": "std", "mode": mode},
                     )
             # after leaving the isolated construct, include works again in the caller
-            if isolating and bname == "plain":
+            if isolating and bname == "plain" and "block" not in path:
                 src2, parts2 = o3_build(path, "x")
                 res = frame_case(rt, "std", src2 + "{% include 'q' %}", parts2, GLOBALS, "sync", own=True)
                 ctx.count("O3_include_after_isolated_construct")
@@ -1463,13 +1554,15 @@ def floors(tier: str) -> dict[str, int]:
         "frame_top_checks_after_raise": 500 * k,
         "fault_injections_raised": 500 * k,
         "lambda_scopes_pushed": 500 * k,
+        "pairs_inside_overriding_block": 300 * k,
+        "set:block_wrappers": 40,
         "O3_refusals": 1000,
         "depth_sweep_raised": 100,
         "O4_probe_pairs": 1000 * k,
         "O6_order_pairs": 150 * k,
         "set:o4_binders": 25,
         "set:constructs": 4,
-        "set:wrappers": 7,
+        "set:wrappers": 8,
         "set:lambda_filters": 10,
     }
 
